@@ -1,3 +1,4 @@
+pub mod grammar;
 pub mod interp;
 pub mod poetic;
 pub mod rast;
